@@ -81,7 +81,9 @@ RegexSearch(r, buf) ==
       [] OTHER -> NoMatch
 
 \* can bytes appended after the buffer lengthen or move a match that ends at its end?
-RegexOpenEnded(r) == r \in {"Xplus", "Xplus_or_end", "Ystar", "crlf", "EOS"}
+\* "dollar": the user's OWN re.compile(b'$'), an object equal to the library's EOS but not the same one (it means the same)
+IsEOS(r) == r \in {"EOS", "dollar"}
+RegexOpenEnded(r) == r \in {"Xplus", "Xplus_or_end", "Ystar", "crlf", "EOS", "dollar"}
 
 \* ------------------------------------------------------------ leaf reads
 \* every leaf read returns [ok, cur, v, reads, regs]
@@ -113,7 +115,7 @@ ScanMarker(raw, cur, sz, sbl) ==
 
 ScanRegex(raw, cur, sz, sbl) ==
     LET w == Window(raw, cur, sbl) IN
-    IF sz.r = "EOS"
+    IF IsEOS(sz.r)
     THEN LET next == cur + Max2(Len(raw) - cur, 0) IN      \* (never negative: repaired F13)
          [ok |-> TRUE, cur |-> next, v |-> PySlice(raw, cur, next),
           reads |-> <<[WindowRd(raw, cur, sbl) EXCEPT !.open = TRUE], Rd(raw, cur, next)>>, delim |-> <<>>, remember |-> FALSE]
